@@ -165,6 +165,11 @@ func checkC14(c *Ctx) error {
 			c14Scenario{Kind: "sharedfn", G: g, Topo: "child", Iters: 4, Src: `<%= deepfn(180) %>|<%= gid %>|<%= deepfn(2) %>`, Parts: map[string]string{"__prelude": prelude}},
 			c14Scenario{Kind: "sharedblock", G: g, Topo: "child", Iters: 40, Src: `<%= contentOf("shared", {label: gid}) %>|<%= gid %>`, Parts: map[string]string{"__prelude": prelude}})
 	}
+	// ONE array (bound in a shared parent) printed by all executions at overlapping times: an element's String method keeps
+	// each execution inside the write for a while
+	for _, g := range []int{2, 8} {
+		scenarios = append(scenarios, c14Scenario{Kind: "sharedarray", G: g, Topo: "child", Iters: 4, Src: `<%= items %>|<%= for (v) in items { %><%= v %><% } %>`})
+	}
 	// BuffaloRenderer without data, all renderings handing over ONE helpers map (an application's): the map is only read
 	for _, g := range []int{2, 8} {
 		scenarios = append(scenarios, c14Scenario{Kind: "buffalo", G: g, Topo: "root", Iters: 30, Src: `<% let who = me() %><%= who %>|<%= if (leftover) { %>L<% } %><% let leftover = 1 %>`})
@@ -537,9 +542,53 @@ func c14RunBuffalo(s c14Scenario) (res c14Result) {
 	return
 }
 
+// c14Slow: printing it takes a while
+type c14Slow struct{}
+
+func (c14Slow) String() string { time.Sleep(15 * time.Millisecond); return "-" }
+
+// c14RunSharedArray: G goroutines, each on a child of one parent context that binds the array.
+func c14RunSharedArray(s c14Scenario) (res c14Result) {
+	parent := plush.NewContext()
+	parent.Set("items", []interface{}{"a", c14Slow{}, []interface{}{"b", c14Slow{}}})
+	const want = "a-b-|a-b-"
+	var wg sync.WaitGroup
+	var mu sync.Mutex
+	start := make(chan struct{})
+	for g := 0; g < s.G; g++ {
+		wg.Add(1)
+		go func(g int) {
+			defer wg.Done()
+			defer func() {
+				if r := recover(); r != nil {
+					mu.Lock()
+					res.Panic = fmt.Sprint(r)
+					mu.Unlock()
+				}
+			}()
+			<-start
+			for i := 0; i < s.Iters; i++ {
+				out, err := plush.Render(s.Src, parent.New())
+				if out != want || err != nil {
+					mu.Lock()
+					res.Mismatch = fmt.Sprintf("goroutine %d execution %d got (%q, %v), alone it gives (%q, nil)", g, i, out, err, want)
+					mu.Unlock()
+					return
+				}
+			}
+		}(g)
+	}
+	close(start)
+	wg.Wait()
+	return
+}
+
 func c14RunExec(s c14Scenario) (res c14Result) {
 	if s.Kind == "buffalo" {
 		return c14RunBuffalo(s)
+	}
+	if s.Kind == "sharedarray" {
+		return c14RunSharedArray(s)
 	}
 	plush.CacheEnabled = s.Cache
 	defer func() { plush.CacheEnabled = false }()
